@@ -77,6 +77,9 @@ FUNCS = [
     ("src/group4.c", "rdsparser_group4_parse", "m_group4_parse", []),
     ("src/parser.c", "rdsparser_parser_process", "m_parser_process", []),
     ("src/rdsparser.c", "rdsparser_clear", "m_clear", []),
+    ("src/rdsparser.c", "rdsparser_set_text_correction", "m_set_text_correction", []),
+    ("src/rdsparser.c", "rdsparser_set_text_progressive", "m_set_text_progressive", []),
+    ("src/rdsparser.c", "rdsparser_set_extended_check", "m_set_extended_check", []),
     ("src/string.c", "rdsparser_string_convert", "m_string_convert_n", ["-DRDSPARSER_DISABLE_UNICODE"]),
     ("src/string.c", "rdsparser_string_update_single", "m_update_single_n", ["-DRDSPARSER_DISABLE_UNICODE"]),
 ]
@@ -252,6 +255,10 @@ def lvalue(node, ctx):
         if base["kind"] == "MemberExpr":
             ctx.sh.kinds[member_path(base, ctx)] = 1
             return ("memelem", member_path(base, ctx), expr(idx, ctx))
+        if base["kind"] == "ArraySubscriptExpr" and strip(base["inner"][0])["kind"] == "MemberExpr":
+            path = member_path(strip(base["inner"][0]), ctx)
+            ctx.sh.kinds[path] = 2
+            return ("memelem2", path, expr(base["inner"][1], ctx), expr(idx, ctx))
         if base["kind"] == "DeclRefExpr":
             name = base["referencedDecl"]["name"]
             if name in ctx.ptrs:
@@ -282,6 +289,8 @@ def read(node, ctx):
         return ctx.rd(lv[1])
     if lv[0] == "memelem":
         return "(@nth Z (Z.to_nat %s) %s 0)" % (lv[2], ctx.rd(lv[1]))
+    if lv[0] == "memelem2":
+        return "(@nth Z (Z.to_nat %s) (@nth (list Z) (Z.to_nat %s) %s []) 0)" % (lv[3], lv[2], ctx.rd(lv[1]))
     if lv[0] == "arr":
         a = ctx.arrs[lv[1]]
         if not 0 <= lv[2] < len(a) or a[lv[2]] is None:
@@ -305,6 +314,9 @@ def write(node, ctx, term):
         ctx.wr(lv[1], term)
     elif lv[0] == "memelem":
         ctx.wr(lv[1], "(@upd Z (Z.to_nat %s) %s %s)" % (lv[2], term, ctx.rd(lv[1])))
+    elif lv[0] == "memelem2":
+        m = ctx.rd(lv[1])
+        ctx.wr(lv[1], "(@upd (list Z) (Z.to_nat %s) (@upd Z (Z.to_nat %s) %s (@nth (list Z) (Z.to_nat %s) %s [])) %s)" % (lv[2], lv[3], term, lv[2], m, m))
     elif lv[0] == "arr":
         ctx.arrs[lv[1]][lv[2]] = ctx.let("%s_%d_" % (lv[1], lv[2]), term)
     else:
